@@ -39,6 +39,33 @@ harnesses! {
         vassert!(i, to_tape(&b).map(|u| u.same(&t)).unwrap_or(false), "C18:re-serialisation-identical");
         vcover!(i, p.1 > 2, "non-trivial-state");
     }
+    /// sample sizes over the whole u64 range: a count above 2^53 (not a double) is reachable by self-merges, and the round
+    /// trip does no arithmetic on it, so the MAXN bound of the shared state builders is not needed here
+    fn counts_full_range [50] (i) {
+        let n = i.u64();
+        vassume!(i, n >= 2);
+        let a = Mean::__verif_from_parts(fin(i), n);
+        let r: Result<Mean, _> = from_tape(&to_tape(&a).unwrap());
+        vassert!(i, r.is_ok(), "C18:deserialise-succeeds");
+        vassert!(i, r.unwrap().__verif_parts().1 == n, "C18:round-trip-preserves-count");
+        let a = Variance::__verif_from_parts(fin(i), n, 1.0);
+        let r: Result<Variance, _> = from_tape(&to_tape(&a).unwrap());
+        vassert!(i, r.is_ok(), "C18:deserialise-succeeds");
+        vassert!(i, r.unwrap().__verif_parts().1 == n, "C18:round-trip-preserves-count");
+        let a = Kurtosis::__verif_from_parts(fin(i), n, 1.0, 0.5, 2.0);
+        let r: Result<Kurtosis, _> = from_tape(&to_tape(&a).unwrap());
+        vassert!(i, r.is_ok(), "C18:deserialise-succeeds");
+        vassert!(i, r.unwrap().__verif_parts().1 == n, "C18:round-trip-preserves-count");
+        let a = Covariance::__verif_from_parts(fin(i), 1.0, 0.0, 1.0, 0.5, n);
+        let r: Result<Covariance, _> = from_tape(&to_tape(&a).unwrap());
+        vassert!(i, r.is_ok(), "C18:deserialise-succeeds");
+        vassert!(i, r.unwrap().__verif_parts().5 == n, "C18:round-trip-preserves-count");
+        let a = M4::__verif_from_parts(n, fin(i), [1.0, 0.5, 2.0]);
+        let r: Result<M4, _> = from_tape(&to_tape(&a).unwrap());
+        vassert!(i, r.is_ok(), "C18:deserialise-succeeds");
+        vassert!(i, r.unwrap().__verif_parts().0 == n, "C18:round-trip-preserves-count");
+        vcover!(i, n > (1u64 << 53) && n % 2 == 1, "count-not-representable-as-double");
+    }
     fn variance [50] (i) {
         let a = var_state(i);
         let p = a.__verif_parts();
